@@ -714,6 +714,13 @@ func check(c Case) (o pbt.Outcome) {
 			}{m, string(b), map[bool]string{false: "required-only", true: "all-properties"}[full]})
 		}
 	}
+	{
+		var ms []string
+		for _, m := range c.Models {
+			ms = append(ms, m.Name+":"+m.Class+"["+fieldKey(m)+"]")
+		}
+		o.Sample = map[string]any{"models": ms, "marshalled_values": i, "documents_decoded": len(unreqs)}
+	}
 	if len(unreqs) > 0 {
 		uresps, herr := runHarness(dir, bin, unreqs)
 		if herr == nil {
